@@ -38,6 +38,35 @@ func registerCore(e *Engine) {
 		var cell value = bigInt{v}
 		return &cell
 	})
+	// verifBigNN / verifBigPos: symbolic big.Int constrained >= 0 / > 0 without
+	// a feasibility query (the constraint on a fresh variable is satisfiable).
+	e.Register("verif:verifBigNN", func(fr *frame, args []value) value {
+		v := fr.i.ctx.NewVar(strArg(args[0]), IntSort)
+		fr.i.ctx.Constrain(Ge(v, IntConst64(0)))
+		var cell value = bigInt{v}
+		return &cell
+	})
+	e.Register("verif:verifBigPos", func(fr *frame, args []value) value {
+		v := fr.i.ctx.NewVar(strArg(args[0]), IntSort)
+		fr.i.ctx.Constrain(Gt(v, IntConst64(0)))
+		var cell value = bigInt{v}
+		return &cell
+	})
+	// verifU32Range(name, lo, hi) / verifU64Range: lo <= v <= hi
+	e.Register("verif:verifU32Range", func(fr *frame, args []value) value {
+		v := symIntVar(fr, strArg(args[0]), types.Uint32).(symInt)
+		lo, _ := intTerm(args[1])
+		hi, _ := intTerm(args[2])
+		fr.i.ctx.Constrain(And(Ge(v.T, lo), Le(v.T, hi)))
+		return v
+	})
+	e.Register("verif:verifU64Range", func(fr *frame, args []value) value {
+		v := symIntVar(fr, strArg(args[0]), types.Uint64).(symInt)
+		lo, _ := intTerm(args[1])
+		hi, _ := intTerm(args[2])
+		fr.i.ctx.Constrain(And(Ge(v.T, lo), Le(v.T, hi)))
+		return v
+	})
 	e.Register("verif:verifU64", func(fr *frame, args []value) value { return symIntVar(fr, strArg(args[0]), types.Uint64) })
 	e.Register("verif:verifU32", func(fr *frame, args []value) value { return symIntVar(fr, strArg(args[0]), types.Uint32) })
 	e.Register("verif:verifU16", func(fr *frame, args []value) value { return symIntVar(fr, strArg(args[0]), types.Uint16) })
